@@ -25,15 +25,19 @@ RULE = ("state type in {positive, complex, mixed} x nv 1..3 (thorough 1..4) x nh
         "a basis-state target, a global phase; KL with bases=None / lists over {X,Y,Z} (quick: sampled, thorough: "
         "all 3^n for n<=2 plus sampled) / dict of pre-rotated targets (with and without bases=) / one target to be rotated; "
         "NLL with sample multisets (repeats) without bases and with per-sample bases incl. all-Z rows, single-basis and "
-        "mixed batches; a case is (fn, state, shape, parameter draw, call form, target/bases/samples); non-trivial := "
+        "mixed batches; all of it for all three state types (PositiveWaveFunction rotates with the default dictionary); targets "
+        "also passed as target= / deprecated target_psi= / target_rho= keywords; bases as list / tuple / numpy array; basis-state "
+        "and GHZ-like targets (exact zeros and ones); a case is (fn, state, shape, parameter draw, call form, target/bases/samples); non-trivial := "
         "non-real target or a basis containing Y or a mixed batch of bases")
 ASSUMPTIONS = [
     "np.linalg.eigvals returns the spectrum of its argument (mixed-state fidelity: eigenvalue oracle of the model)",
     "probs_to_logits clamps to [eps, 1-eps]; the real-number theorems assume probabilities inside that range; "
     "oracle comparisons are skipped (correspondence kept) when a model probability is below 1e-13",
     "mixed-state fidelity = Uhlmann fidelity and in [0,1] is correspondence/oracle-tested only (no Coq theorem)",
-    "PositiveWaveFunction has no unitary dictionary (computational basis only): for it KL is exercised with bases=None and "
-    "NLL without bases or with all-Z rows; KL/NLL in rotated bases raise AttributeError there and are outside its contract",
+    "the KL/NLL theorems cover probabilities in [2^-52, 1-2^-52] (plus exactly-zero target probabilities); basis-state / "
+    "GHZ-like targets (probabilities exactly 0 or 1) are generated here and held to the numpy oracle (0 ln 0 = 0)",
+    "states without a unitary dictionary (PositiveWaveFunction) rotate with create_dict() (/repo c22f10c); in the model X, Y, Z "
+    "always denote the default matrices",
 ]
 
 LET = {"X": 0, "Y": 1, "Z": 2}
@@ -183,6 +187,10 @@ def rand_target(ctx, tab, form):
     d = len(tab.sp)
     if form == "self":
         return tab.own.copy()
+    if form == "ghz":
+        v = np.zeros(d, dtype=complex); v[0] = 1.0; v[d - 1] += np.exp(1j * rng.uniform(0, 2 * np.pi))
+        v = v / np.sqrt(np.sum(np.abs(v) ** 2))
+        return np.outer(v, v.conj()) if tab.mixed else v
     if not tab.mixed:
         if form == "basis":
             t = np.zeros(d, dtype=complex); t[int(rng.integers(d))] = np.exp(1j * rng.uniform(0, 2 * np.pi))
@@ -225,7 +233,11 @@ def run_fidelity(ctx, case, tab):
     t = target_of_case(case, tab)
     tt = c2t(t)
     space = tab.space if case.get("pass_space", True) else None
-    ok, F = ctx.call("fidelity", case, lambda: ts.fidelity(s, tt, space))
+    kw = case.get("target_kw", "positional")
+    if kw == "positional":
+        ok, F = ctx.call("fidelity", case, lambda: ts.fidelity(s, tt, space))
+    else:
+        ok, F = ctx.call("fidelity", case, lambda: ts.fidelity(s, space=space, **{kw: tt}))
     if not ok:
         return
     ctx.require("fidelity returns a plain number", is_plain_number(F), case, type(F).__name__)
@@ -291,7 +303,16 @@ def run_kl(ctx, case, tab):
         target_arg = c2t(t)
         call_bases = bases if form == "list" else None
         eff_bases = bases if form == "list" else None
-    ok, K = ctx.call("KL", case, lambda: ts.KL(s, target_arg, space, bases=call_bases))
+    cont = case.get("bases_container", "list")
+    if call_bases is not None and cont == "tuple":
+        call_bases = tuple(call_bases)
+    elif call_bases is not None and cont == "ndarray":
+        call_bases = np.array(call_bases)
+    kw = case.get("target_kw", "positional")
+    if kw == "positional":
+        ok, K = ctx.call("KL", case, lambda: ts.KL(s, target_arg, space, bases=call_bases))
+    else:
+        ok, K = ctx.call("KL", case, lambda: ts.KL(s, space=space, bases=call_bases, **{kw: target_arg}))
     if not ok:
         return
     ctx.require("KL returns a plain number", is_plain_number(K), case, type(K).__name__)
@@ -435,8 +456,8 @@ def target_forms(tab, thorough, rng):
     d = len(tab.sp)
     if tab.mixed:
         ranks = list(range(1, d + 1)) if (thorough or d <= 4) else sorted(set([1, d] + rng.integers(1, d + 1, size=2).tolist()))
-        return ["self", "real", "basis"] + ["rank-%d" % r if r < d else "rank-full" for r in ranks]
-    return ["self", "real", "basis", "complex", "complex"]
+        return ["self", "real", "basis", "ghz"] + ["rank-%d" % r if r < d else "rank-full" for r in ranks]
+    return ["self", "real", "basis", "ghz", "complex", "complex"]
 
 
 def cases_for_state(ctx, base, tab):
@@ -446,9 +467,17 @@ def cases_for_state(ctx, base, tab):
     thorough = ctx.thorough
     forms = target_forms(tab, thorough, rng)
 
+    KWS = ["positional", "target", "target_psi", "target_rho"]     # the last two: deprecated aliases (deprecated_kwarg)
+    kw_i = [int(rng.integers(len(KWS)))]
+
     def with_target(c, form):
         c = dict(base, **c)
         c["target_form"] = form
+        if c["fn"] in ("fidelity", "KL"):
+            c["target_kw"] = KWS[kw_i[0] % len(KWS)]                  # round robin: every form occurs on every state
+            kw_i[0] += 1
+            if c.get("bases") is not None:
+                c["bases_container"] = ["list", "tuple", "ndarray"][int(rng.integers(3))]
         if form != "self":
             c["target"] = ser_c(rand_target(ctx, tab, form))
         return c
@@ -457,16 +486,11 @@ def cases_for_state(ctx, base, tab):
     for form in forms:
         yield with_target({"fn": "fidelity", "pass_space": bool(rng.random() < 0.7), "theta": float(rng.uniform(0.1, 6.2))}, form)
     # KL
-    kl_forms = ["self", "complex" if not tab.mixed else "rank-full", "real"]
+    kl_forms = ["self", "complex" if not tab.mixed else "rank-full", "real", "basis", "ghz"]
     if tab.mixed:
         kl_forms += ["rank-1" if len(tab.sp) > 1 else "rank-full", "rank-%d" % max(1, len(tab.sp) // 2) if len(tab.sp) > 2 else "rank-full"]
-    else:
-        kl_forms += ["basis"]
-    positive = (base["state"] == "positive")     # no unitary dictionary: computational basis only (see ASSUMPTIONS)
     for form in kl_forms:
         yield with_target({"fn": "KL", "bases_form": "none", "pass_space": bool(rng.random() < 0.7)}, form)
-        if positive:
-            continue
         if thorough and nv <= 2:
             yield with_target({"fn": "KL", "bases_form": "list", "bases": gen.all_bases(nv)}, form)
         yield with_target({"fn": "KL", "bases_form": "list", "bases": rand_bases(ctx, nv, int(rng.integers(1, 5)), force_y=True)}, form)
@@ -478,12 +502,10 @@ def cases_for_state(ctx, base, tab):
     # NLL
     for N in ([1, 5, 12] if not thorough else [1, 3, 8, 20]):
         yield dict(base, fn="NLL", samples=rand_samples(ctx, nv, N), sample_bases=None, pass_space=bool(rng.random() < 0.7))
-        pool = (rand_bases(ctx, nv, int(rng.integers(1, 4)), force_y=True) if base["state"] != "positive" else []) + ["Z" * nv]
+        pool = rand_bases(ctx, nv, int(rng.integers(1, 4)), force_y=True) + ["Z" * nv]
         sb = [pool[i] for i in rng.integers(0, len(pool), size=N)]
         yield dict(base, fn="NLL", samples=rand_samples(ctx, nv, N), sample_bases=sb, pass_space=bool(rng.random() < 0.7))
     yield dict(base, fn="NLL", samples=rand_samples(ctx, nv, 4), sample_bases=["Z" * nv] * 4)            # all-Z rows only
-    if positive:
-        return
     b1 = rand_bases(ctx, nv, 1, force_y=True)[0]
     yield dict(base, fn="NLL", samples=rand_samples(ctx, nv, 6), sample_bases=[b1] * 6)                  # one rotated basis
     full = [str(b) for b in rng.choice(gen.all_bases(nv), size=10)]
@@ -507,7 +529,7 @@ def nontrivial(case):
 
 
 def describe(case):
-    d = {k: case.get(k) for k in ("fn", "state", "nv", "nh", "na", "target_form", "bases_form", "bases", "dict_keys", "sample_bases", "pass_space")}
+    d = {k: case.get(k) for k in ("fn", "state", "nv", "nh", "na", "target_form", "bases_form", "bases", "dict_keys", "sample_bases", "pass_space", "target_kw", "bases_container")}
     d["am00"] = case["am"][0][0][0]
     if case.get("samples") is not None:
         d["n_samples"] = len(case["samples"])
@@ -544,6 +566,12 @@ def one_state(ctx, kind, shape):
             ctx.count("bases_form:" + case["bases_form"])
         if case.get("target_form"):
             ctx.count("target_form:" + case["target_form"])
+        if case.get("target_kw"):
+            ctx.count("target_kw:" + case["target_kw"])
+        if case.get("bases_container"):
+            ctx.count("bases_container:" + case["bases_container"])
+        if kind == "positive" and any(ch != "Z" for b in (case.get("bases") or []) + (case.get("dict_keys") or []) + (case.get("sample_bases") or []) for ch in b):
+            ctx.count("positive_state_rotated_basis")
         if any("Y" in b for b in (case.get("bases") or []) + (case.get("dict_keys") or []) + (case.get("sample_bases") or [])):
             ctx.count("has_Y")
         run_case(ctx, case, tab)
